@@ -82,6 +82,7 @@ func BFS(m Model, maxDepth int, dedup bool, workers int, deadline time.Time) Sta
 		var wg sync.WaitGroup
 		ch := make(chan int, 256)
 		var stop bool
+		var firstPanic any
 		var mu sync.Mutex
 		for w := 0; w < workers; w++ {
 			wg.Add(1)
@@ -100,7 +101,19 @@ func BFS(m Model, maxDepth int, dedup bool, workers int, deadline time.Time) Sta
 						mu.Unlock()
 						continue
 					}
-					results[i] = child{jobs[i], m.Run(jobs[i])}
+					func() {
+						defer func() {
+							if r := recover(); r != nil {
+								mu.Lock()
+								if firstPanic == nil {
+									firstPanic = r
+								}
+								stop = true
+								mu.Unlock()
+							}
+						}()
+						results[i] = child{jobs[i], m.Run(jobs[i])}
+					}()
 				}
 			}()
 		}
@@ -109,6 +122,9 @@ func BFS(m Model, maxDepth int, dedup bool, workers int, deadline time.Time) Sta
 		}
 		close(ch)
 		wg.Wait()
+		if firstPanic != nil {
+			panic(firstPanic) // on the caller's goroutine
+		}
 		if stop {
 			st.DeadlineHit = true
 			return st
